@@ -409,9 +409,18 @@ def _descends_into_argument(repo: Repo, qual: str) -> bool:
     rec = [c for c in ast.walk(f.node) if isinstance(c, ast.Call) and (is_name(c.func, f.name) or (isinstance(c.func, ast.Attribute) and c.func.attr == f.name and isinstance(c.func.value, ast.Name) and c.func.value.id in ("self", "cls")))]
     if not rec:
         return False
+    def strict_part(a: ast.AST) -> bool:
+        # `<param>.left`, `<param>.block.nodes[0]`: an attribute / item of a parameter (or of a part) —
+        # strictly inside the structure the parameter refers to
+        cur, depth_ = a, 0
+        while isinstance(cur, (ast.Attribute, ast.Subscript)):
+            cur = cur.value
+            depth_ += 1
+        return depth_ >= 1 and isinstance(cur, ast.Name) and cur.id in (params | parts)
+
     for c in rec:
         args = list(c.args) + [k.value for k in c.keywords]
-        if not any(names_in(a) & parts for a in args):
+        if not any((names_in(a) & parts) or strict_part(a) for a in args):
             return False
     return True
 
